@@ -362,6 +362,54 @@ pub mod verif_c01 {
             .collect();
         (rounds, left)
     }
+
+    /// The HTTP/1.1 bytes of the blocks the real `pkawa::handle_trailer` pushes
+    /// for a trailer block that ends an upload (a chunked one, or one framed
+    /// by `content_length`), as kawa's H1 converter writes them.
+    pub fn trailers_as_h1(
+        fields: &[(Vec<u8>, Vec<u8>)],
+        content_length: Option<usize>,
+    ) -> Result<Vec<u8>, String> {
+        let mut pool = crate::pool::Pool::with_capacity(1, 1, 4096);
+        let checkout = pool.checkout().ok_or("no buffer")?;
+        let mut kawa = Kawa::new(Kind::Request, Buffer::new(checkout));
+        match content_length {
+            Some(n) => {
+                kawa.body_size = kawa::BodySize::Length(n);
+                kawa.parsing_phase = kawa::ParsingPhase::Body;
+            }
+            None => {
+                kawa.body_size = kawa::BodySize::Chunked;
+                kawa.parsing_phase = kawa::ParsingPhase::Chunks { first: false };
+            }
+        }
+        let mut encoder = loona_hpack::Encoder::new();
+        let mut encoded = Vec::new();
+        for (k, v) in fields {
+            encoder
+                .encode_header_into((k.as_slice(), v.as_slice()), &mut encoded)
+                .map_err(|e| format!("{e:?}"))?;
+        }
+        let mut decoder = loona_hpack::Decoder::new();
+        super::pkawa::handle_trailer(
+            &mut kawa,
+            &encoded,
+            true,
+            &mut decoder,
+            super::h2::MAX_HEADER_LIST_SIZE as u32,
+            u32::MAX,
+            false,
+        )
+        .map_err(|e| format!("{e:?}"))?;
+        kawa.prepare(&mut kawa::h1::BlockConverter);
+        let mut out = Vec::new();
+        for block in kawa.out.iter() {
+            if let OutBlock::Store(store) = block {
+                out.extend_from_slice(store.data(kawa.storage.buffer()));
+            }
+        }
+        Ok(out)
+    }
 }
 
 use crate::metrics::names;
